@@ -580,30 +580,161 @@ t=t.sub('''        Self::join(Some(left), min_key, min_value, new_right)''',''' 
         Self::join(Some(left), min_key, min_value, new_right)''')
 emit(t)
 
+# ---- union
+t=I(NODE, 'union')
+t.sig(ret='res', spec='''requires tb(left), bal(left), tb(right), bal(right), req_ok(view(left), view(right), *old(merge)),
+        ensures tb(res), bal(res), *final(merge) == *old(merge), is_union(view(left), view(right), view(res), *old(merge)),
+        decreases nsz(left) + nsz(right),''', prelude='''proof { lemma_bal_unfold(left); lemma_bal_unfold(right); lemma_tb_bounds_u32(left); lemma_tb_bounds_u32(right); }
+        let ghost left0 = left; let ghost right0 = right; let ghost mg = *merge;''')
+t.after('let (r_left, r_value_opt, r_right) = Self::split(Some(r), &l_key);', '''proof {
+                        let lo: int = -1; let hi: int = 0x1_0000_0000;
+                        assert(is_data(left0)); assert(bst(left0, lo, hi));
+                        lemma_view_dom(l_left, lo, l_key as int); lemma_view_dom(l_right, l_key as int, hi);
+                        assert(tb(l_left)) by { assert(bst(l_left, lo, l_key as int)); }
+                        assert(tb(l_right)) by { assert(bst(l_right, l_key as int, hi)); }
+                        assert(view(left0) == view(l_left).union_prefer_right(view(l_right)).insert(l_key, l_value));
+                        lemma_node_submaps(view(left0), view(l_left), view(l_right), l_key, l_value);
+                        lemma_split_submaps(view(right0), view(r_left), view(r_right), l_key);
+                        lemma_req_sub(view(left0), view(right0), view(l_left), view(r_left), mg);
+                        lemma_req_sub(view(left0), view(right0), view(l_right), view(r_right), mg);
+                        if view(right0).contains_key(l_key) { assert(mg.requires((&l_key, view(left0)[l_key], view(right0)[l_key]))); }
+                        assert(nsz(l_left) + nsz(l_right) + 1 == nsz(left0));
+                    }''')
+t.before('                    Self::join(new_left, l_key, new_value, new_right)', '''proof {
+                        assert forall|x: u32| #[trigger] view(new_left).contains_key(x) implies x < l_key by { assert(view(l_left).contains_key(x) || view(r_left).contains_key(x)); }
+                        assert forall|x: u32| #[trigger] view(new_right).contains_key(x) implies l_key < x by { assert(view(l_right).contains_key(x) || view(r_right).contains_key(x)); }
+                        lemma_union_step_left(view(left0), view(right0), view(l_left), view(l_right), l_key, l_value, view(r_left), view(r_right), new_value,
+                            view(new_left), view(new_right), view(new_left).union_prefer_right(view(new_right)).insert(l_key, new_value), mg);
+                    }''')
+t.after('let (l_left, l_value_opt, l_right) = Self::split(Some(l), &r_key);', '''proof {
+                        let lo: int = -1; let hi: int = 0x1_0000_0000;
+                        assert(is_data(right0)); assert(bst(right0, lo, hi));
+                        lemma_view_dom(r_left, lo, r_key as int); lemma_view_dom(r_right, r_key as int, hi);
+                        assert(tb(r_left)) by { assert(bst(r_left, lo, r_key as int)); }
+                        assert(tb(r_right)) by { assert(bst(r_right, r_key as int, hi)); }
+                        assert(view(right0) == view(r_left).union_prefer_right(view(r_right)).insert(r_key, r_value));
+                        lemma_node_submaps(view(right0), view(r_left), view(r_right), r_key, r_value);
+                        lemma_split_submaps(view(left0), view(l_left), view(l_right), r_key);
+                        lemma_req_sub(view(left0), view(right0), view(l_left), view(r_left), mg);
+                        lemma_req_sub(view(left0), view(right0), view(l_right), view(r_right), mg);
+                        if view(left0).contains_key(r_key) { assert(mg.requires((&r_key, view(left0)[r_key], view(right0)[r_key]))); }
+                        assert(nsz(r_left) + nsz(r_right) + 1 == nsz(right0));
+                    }''')
+t.before('                    Self::join(new_left, r_key, new_value, new_right)', '''proof {
+                        assert forall|x: u32| #[trigger] view(new_left).contains_key(x) implies x < r_key by { assert(view(l_left).contains_key(x) || view(r_left).contains_key(x)); }
+                        assert forall|x: u32| #[trigger] view(new_right).contains_key(x) implies r_key < x by { assert(view(l_right).contains_key(x) || view(r_right).contains_key(x)); }
+                        lemma_union_step_right(view(left0), view(right0), view(r_left), view(r_right), r_key, r_value, view(l_left), view(l_right), new_value,
+                            view(new_left), view(new_right), view(new_left).union_prefer_right(view(new_right)).insert(r_key, new_value), mg);
+                    }''')
+emit(t)
+
+# ---- difference
+t=I(NODE, 'difference')
+t.sig(ret='res', spec='''requires tb(left), bal(left), tb(right), bal(right), dreq_ok(view(left), view(right), *old(diff)),
+        ensures tb(res), bal(res), *final(diff) == *old(diff), is_diff(view(left), view(right), view(res), *old(diff)),
+        decreases nsz(left),''', prelude='''proof { lemma_bal_unfold(left); lemma_bal_unfold(right); lemma_tb_bounds_u32(left); lemma_tb_bounds_u32(right); }
+        let ghost left0 = left; let ghost right0 = right; let ghost df = *diff;''')
+t.after('let (r_left, r_value_opt, r_right) = Self::split(Some(r), &l_key);', '''proof {
+                    let lo: int = -1; let hi: int = 0x1_0000_0000;
+                    assert(is_data(left0)); assert(bst(left0, lo, hi));
+                    lemma_view_dom(l_left, lo, l_key as int); lemma_view_dom(l_right, l_key as int, hi);
+                    assert(tb(l_left)) by { assert(bst(l_left, lo, l_key as int)); }
+                    assert(tb(l_right)) by { assert(bst(l_right, l_key as int, hi)); }
+                    assert(view(left0) == view(l_left).union_prefer_right(view(l_right)).insert(l_key, l_value));
+                    lemma_node_submaps(view(left0), view(l_left), view(l_right), l_key, l_value);
+                    lemma_split_submaps(view(right0), view(r_left), view(r_right), l_key);
+                    lemma_dreq_sub(view(left0), view(right0), view(l_left), view(r_left), df);
+                    lemma_dreq_sub(view(left0), view(right0), view(l_right), view(r_right), df);
+                    if view(right0).contains_key(l_key) { assert(df.requires((&l_key, view(left0)[l_key], view(right0)[l_key]))); }
+                    assert(nsz(l_left) + nsz(l_right) + 1 == nsz(left0));
+                }''')
+t.after('let new_right = Self::difference(l_right, r_right, diff);', '''proof {
+                    assert forall|x: u32| #[trigger] view(new_left).contains_key(x) implies x < l_key by { assert(view(l_left).contains_key(x)); }
+                    assert forall|x: u32| #[trigger] view(new_right).contains_key(x) implies l_key < x by { assert(view(l_right).contains_key(x)); }
+                }
+                let ghost nl = view(new_left); let ghost nr = view(new_right);''')
+t.after('''// diff returned None, exclude this key from result
+                            None => {''', '''proof {
+                                assert forall|res: Map<u32, V>| (forall|x: u32| #[trigger] res.contains_key(x) <==> (nl.contains_key(x) || nr.contains_key(x) || (x == l_key && false))) && (forall|x: u32| nl.contains_key(x) ==> #[trigger] res[x] == nl[x]) && (forall|x: u32| nr.contains_key(x) ==> #[trigger] res[x] == nr[x])  implies #[trigger] is_diff(view(left0), view(right0), res, df) by {
+                                    lemma_diff_step(view(left0), view(right0), view(l_left), view(l_right), l_key, l_value, view(r_left), view(r_right), None::<V>, nl, nr, res, df);
+                                }
+                            }''')
+t.wrap('Some(new_value) => ', 'Self::join(new_left, l_key, new_value, new_right)', '''proof {
+                                assert forall|res: Map<u32, V>| (forall|x: u32| #[trigger] res.contains_key(x) <==> (nl.contains_key(x) || nr.contains_key(x) || (x == l_key && true))) && (forall|x: u32| nl.contains_key(x) ==> #[trigger] res[x] == nl[x]) && (forall|x: u32| nr.contains_key(x) ==> #[trigger] res[x] == nr[x]) && res[l_key] == new_value implies #[trigger] is_diff(view(left0), view(right0), res, df) by {
+                                    lemma_diff_step(view(left0), view(right0), view(l_left), view(l_right), l_key, l_value, view(r_left), view(r_right), Some(new_value), nl, nr, res, df);
+                                }
+                            }''')
+t.wrap('''// Key doesn't exist in right tree, include it in result
+                    None => ''', 'Self::join(new_left, l_key, l_value, new_right)', '''proof {
+                                assert forall|res: Map<u32, V>| (forall|x: u32| #[trigger] res.contains_key(x) <==> (nl.contains_key(x) || nr.contains_key(x) || (x == l_key && true))) && (forall|x: u32| nl.contains_key(x) ==> #[trigger] res[x] == nl[x]) && (forall|x: u32| nr.contains_key(x) ==> #[trigger] res[x] == nr[x]) && res[l_key] == l_value implies #[trigger] is_diff(view(left0), view(right0), res, df) by {
+                                    lemma_diff_step(view(left0), view(right0), view(l_left), view(l_right), l_key, l_value, view(r_left), view(r_right), Some(l_value), nl, nr, res, df);
+                                }
+                            }''')
+emit(t)
+
 glue('}')
 SPEC('wb_lemmas2.rs')
+SPEC('wb_union.rs')
 
 MAPGLUE()
-t=I(MAP, 'new')   # new + insert
-t=t.sub('pub const fn new() -> Self {','''pub const fn new() -> (r: Self)
-        ensures r.wf(), r@ == Map::<u32, V>::empty(),
-    {
-        proof { assert(bst::<V>(None, -1, 0x1_0000_0000)); }''')
+API = {}
+exec(open(__import__('os').path.join(__import__('os').path.dirname(__import__('os').path.abspath(A_FILE)), 'wbmap_api.py')).read(), API)
+def M(fn, prelude=''):
+    it = I(MAP, fn)
+    ret, spec = API['MAP_CORE'][fn]
+    it.sig(ret=ret, spec=spec, prelude=prelude)
+    return it
+
+t=M('new', 'proof { assert(bst::<V>(None, -1, 0x1_0000_0000)); }')
 emit(t)
-t=I(MAP, 'insert')
-t=t.sub('pub fn insert(&mut self, key: u32, value: V) -> Option<V> {','''pub fn insert(&mut self, key: u32, value: V) -> (r: Option<V>)
-        requires old(self).wf(),
-        ensures final(self).wf(), final(self)@ == old(self)@.insert(key, value),
-            r == (if old(self)@.contains_key(key) { Some(old(self)@[key]) } else { None::<V> }),
-    {
-        proof { let (l0, h0) = choose|lo: int, hi: int| #[trigger] bst(self.root, lo, hi); lemma_bst_u32(self.root, l0, h0); lemma_keys_lt_len(self.root); }''')
+t=M('insert', 'proof { let (l0, h0) = choose|lo: int, hi: int| #[trigger] bst(self.root, lo, hi); lemma_bst_u32(self.root, l0, h0); }')
 emit(t)
-t=I(MAP, 'get')   # get
-t=t.sub('pub fn get(&self, key: &u32) -> Option<&V> {','''pub fn get(&self, key: &u32) -> (r: Option<&V>)
-        requires self.wf(),
-        ensures match r { Some(v) => self@.contains_key(*key) && *v == self@[*key], None => !self@.contains_key(*key) },
-    {
-        let ghost (glo, ghi) = choose|lo: int, hi: int| #[trigger] bst(self.root, lo, hi);''')
+t=M('contains_key')
+emit(t)
+t=M('is_empty', 'proof { lemma_empty_iff_none(self.root); }')
+emit(t)
+t=M('len', 'proof { let (l0, h0) = choose|lo: int, hi: int| #[trigger] bst(self.root, lo, hi); lemma_view_len(self.root, l0, h0); }')
+emit(t)
+t=M('clear').after('self.len = 0;', 'proof { assert(bst::<V>(None, -1, 0x1_0000_0000)); assert(view(self.root) =~= Map::<u32, V>::empty()); }')
+emit(t)
+t=M('remove', 'proof { lemma_empty_iff_none(self.root); }')
+t=t.before('let root = self.root.take()', 'proof { assert(self.root is Some) by { if self.root is None { assert(view(self.root) =~= Map::<u32, V>::empty()); } } }')
+emit(t)
+t=M('union', '''let ghost mg = merge;
+        proof { assert forall|a: Rc<Node<V>>, b: Rc<Node<V>>| #[trigger] cloned::<Rc<Node<V>>>(a, b) implies a == b by { lemma_rc_cloned(a, b); } }''').tail('''proof {
+            assert(is_union(view(self.root), view(other.root), view(new_root), mg));
+            assert forall|x: u32| self@.contains_key(x) && other@.contains_key(x) implies mg.ensures((&x, self@[x], other@[x]), #[trigger] r__@[x]) by {
+                assert(merged_by(x, view(self.root)[x], view(other.root)[x], view(new_root)[x], mg));
+            }
+        }''')
+t=t.before('let new_root = Node::union(self.root.clone(), other.root.clone(), &mut merge);', '''proof {
+            assert forall|k: &u32| view(self.root).contains_key(*k) && view(other.root).contains_key(*k) implies #[trigger] mg.requires((k, view(self.root)[*k], view(other.root)[*k])) by {
+                assert(self@.contains_key(*k) && other@.contains_key(*k));
+                assert(merge.requires((k, self@[*k], other@[*k])));
+            }
+            assert(req_ok(view(self.root), view(other.root), mg));
+        }''')
+emit(t)
+t=M('difference', '''let ghost df = diff;
+        proof { assert forall|a: Rc<Node<V>>, b: Rc<Node<V>>| #[trigger] cloned::<Rc<Node<V>>>(a, b) implies a == b by { lemma_rc_cloned(a, b); } }''').tail('''proof {
+            assert(is_diff(view(self.root), view(other.root), view(new_root), df));
+            assert forall|x: u32| #![trigger self@.contains_key(x), other@.contains_key(x)] self@.contains_key(x) && other@.contains_key(x) implies
+                exists|o: Option<V>| #[trigger] df.ensures((&x, self@[x], other@[x]), o) && (o is Some <==> r__@.contains_key(x)) && (o is Some ==> r__@[x] == o->0) by {
+                assert(kept_by(x, view(self.root)[x], view(other.root)[x], view(new_root), df));
+                let o1 = choose|o1: Option<V>| #[trigger] df.ensures((&x, view(self.root)[x], view(other.root)[x]), o1) && (o1 is Some <==> view(new_root).contains_key(x)) && (o1 is Some ==> view(new_root)[x] == o1->0);
+                assert(self@[x] == view(self.root)[x] && other@[x] == view(other.root)[x] && r__@ == view(new_root));
+                assert(df.ensures((&x, self@[x], other@[x]), o1) && (o1 is Some <==> r__@.contains_key(x)) && (o1 is Some ==> r__@[x] == o1->0));
+            }
+        }''')
+t=t.before('let new_root = Node::difference(self.root.clone(), other.root.clone(), &mut diff);', '''proof {
+            assert forall|k: &u32| view(self.root).contains_key(*k) && view(other.root).contains_key(*k) implies #[trigger] df.requires((k, view(self.root)[*k], view(other.root)[*k])) by {
+                assert(self@.contains_key(*k) && other@.contains_key(*k));
+                assert(diff.requires((k, self@[*k], other@[*k])));
+            }
+            assert(dreq_ok(view(self.root), view(other.root), df));
+        }''')
+emit(t)
+t=M('get', 'let ghost (glo, ghi) = choose|lo: int, hi: int| #[trigger] bst(self.root, lo, hi);')
 t=t.sub('        loop {','''        loop
             invariant mappings@.len() == 0, tb(*current),
                 view(*current).contains_key(*key) == self@.contains_key(*key),
